@@ -12,6 +12,10 @@ class BuiltinMixin:
         name = f.builtin
         if name.startswith('meth:'):
             return self.call_builtin_method(f.bound, name[5:], args, kw, node)
+        if name.startswith('unbound:'):
+            if not args:
+                raise PyRaise('TypeError', 'unbound method needs a receiver')
+            return self.call_builtin_method(args[0], name[8:], list(args[1:]), kw, node)
         if name.startswith('opq:'):
             return self.call_opq_method(f.bound, name[4:], args, kw, node)
         if name.startswith('opqm:'):
@@ -361,6 +365,13 @@ class BuiltinMixin:
             return VC('None')
         if a.k == 'opq':
             return VS(self.ufunc('str_of_opq', OPQ, SEQ)(a.t))
+        if a.k == 'bytes':
+            # X-STR: str(b'..') is the repr "b'..'" (3 more characters at least), str(bytearray(..)) is "bytearray(b'..')" (14 more);
+            # an ASCII text that is never the decoded content
+            r = self.ufunc('repr_of_bytes_' + ('bytearray' if a.x == 'bytearray' else 'bytes'), SEQ, SEQ)(a.t)
+            self.assume(z3.Length(r) >= z3.Length(a.t) + (14 if a.x == 'bytearray' else 3))
+            self.assume(self.all_ascii(r))
+            return VS(r)
         if a.k in ('obj', 'ref', 'list', 'dict', 'tuple', 'cls'):
             # A-LOG: __str__/__repr__ of library objects are field reads (text content not modelled: an opaque string)
             return VS(self.sym('text', SEQ))
